@@ -9,10 +9,12 @@ RUN_MODULE = "Run.Run_C04"
 GEN_FILES = ["Gen_types.v"]
 RULE = ("pairs of lint-clean blackbox-free circuits (<= 9 nodes each, all gate types, constants): identical, restructured at dump level "
         "(De Morgan, operand splitting, inserted buffers, double inversion), one-gate mutants (type change, operand change), unrelated, and "
-        "self-miters (c1 omitted / empty), circuits without (shared) outputs (nothing compared: sat constant 0); startpoints/endpoints: default, explicit empty (= default), every kind of non-empty subset of "
+        "pairs around one xor/xnor gate with 4-5 operands (identical, re-grouped, inverted, operand dropped, unrelated), single-operand gates of "
+        "every multi-input type against buf / not, self-miters (c1 omitted / empty), circuits without (shared) outputs (nothing compared: sat constant 0); startpoints/endpoints: default, explicit empty (= default), every kind of non-empty subset of "
         "the shared ones incl. a single endpoint and internal nodes as endpoints; passed as set, frozenset, list or tuple, built once per case "
         "and handed to two calls (the same pair again, the swapped pair, or the self-miter), with a snapshot of the collections before and "
-        "after each call (a call that changes the caller's collection fails the oracle); plus a rejection stream (blackboxes, "
+        "after each call (a call that changes the caller's collection fails the oracle); on every returned miter the implementation side also calls "
+        "sat.solve(miter, {sat: True}) and the oracle compares the verdict with the exhaustive one; plus a rejection stream (blackboxes, "
         "names missing in one circuit, node names sat / dif_x / c0_x that clash, duplicate endpoints); non-trivial = accepted miter with "
         "at least one gate per copy; distinct = canonical case hash")
 EXPLANATION = ("miter model written through the API model and proved to have the stated semantics (all accepted calls); model tied to tx.miter by "
@@ -174,6 +176,72 @@ def gen_pair(rng):
     return {"c0": c0, "c1": c1, "S": S, "E": E, "rel": rel, "second": rng.choice(["same", "same", "swap", "self"])}
 
 
+def gen_parity_pair(rng):
+    """wide parity gates (4-5 operands): sat.cnf chains them through helper variables; equal, restructured and differing partners"""
+    k = rng.choice([4, 4, 5])
+    ins = [["abcde"[i], "input", False, []] for i in range(k)]
+    names = [n[0] for n in ins]
+    t = rng.choice(["xor", "xnor"])
+    c0 = {"name": "a", "nodes": _clone(ins) + [["p", t, rng.random() < 0.5, names]], "bbs": []}
+    if rng.random() < 0.6:
+        c0["nodes"].append(["o", rng.choice(["buf", "not", "and", "or", "xor"]), True, ["p"] + ([rng.choice(names)] if rng.random() < 0.5 else [])])
+        if c0["nodes"][-1][1] in ("buf", "not"):
+            c0["nodes"][-1][3] = ["p"]
+    else:
+        c0["nodes"][-1][2] = True
+    r = rng.random()
+    c1 = _clone(c0)
+    p1 = [n for n in c1["nodes"] if n[0] == "p"][0]
+    if r < 0.15:
+        rel = "parity:identical"
+    elif r < 0.3:
+        part = rng.sample(names, 2)                   # xor(a,b,c,d) = xor(xor(a,b),c,d)
+        c1["nodes"].insert(k, ["h", "xor", False, sorted(part)])
+        p1[3] = sorted((set(names) - set(part)) | {"h"})
+        rel = "parity:restructured"
+    elif r < 0.4:
+        p1[1] = "xnor" if t == "xor" else "xor"
+        rel = "parity:inverted"
+    elif r < 0.55:
+        p1[3] = sorted(rng.sample(names, k - 1))      # one operand dropped
+        rel = "parity:operand-dropped"
+    elif r < 0.9:
+        # the partner is the constant the gate takes on EVEN parity: the circuits differ exactly on the odd-parity valuations
+        c1["nodes"].insert(k, ["na", "not", False, [names[0]]])
+        p1[1], p1[3] = ("and" if t == "xor" else "or"), sorted([names[0], "na"])
+        rel = "parity:differs-on-odd-parity-only"
+    else:
+        p1[1], p1[3] = rng.choice(["and", "or", "nor"]), sorted(rng.sample(names, 2))
+        rel = "parity:unrelated"
+    c1["name"] = "b"
+    if rng.random() < 0.3:
+        c0, c1 = c1, c0
+    S = None if rng.random() < 0.7 else {"as": "set", "v": rng.sample(names, rng.randint(2, k))}
+    return {"c0": c0, "c1": c1, "S": S, "E": None, "rel": rel, "second": rng.choice(["same", "swap"])}
+
+
+def gen_single_pair(rng):
+    """multi-input gate types used with ONE operand (and/or/xor act as buf, nand/nor/xnor as not) against buf / not"""
+    base = lib.rand_dag(rng, rng.randint(1, 2), rng.randint(0, 2), max_fanin=2, names=lambda i: f"n{i}")
+    g = base["nodes"][-1][0]
+    for n in base["nodes"]:
+        n[2] = False
+    t = rng.choice(lib.MULTI)
+    u = rng.choice(["buf", "not", "buf", "not"] + lib.MULTI)
+    c0, c1 = _clone(base), _clone(base)
+    c0["nodes"].append(["o", t, True, [g]])
+    c1["nodes"].append(["o", u, True, [g]])
+    if rng.random() < 0.4:                            # one more level, so that the single-operand gate is internal
+        for c in (c0, c1):
+            c["nodes"][-1][2] = False
+            c["nodes"][-1][0] = "w"
+            c["nodes"].append(["o", rng.choice(["and", "or", "xor"]), True, sorted({"w", base["nodes"][0][0]})])
+    c0["name"], c1["name"] = "a", "b"
+    if rng.random() < 0.3:
+        c0, c1 = c1, c0
+    return {"c0": c0, "c1": c1, "S": None, "E": None, "rel": f"single:{t}-vs-{u}", "second": rng.choice(["same", "swap"])}
+
+
 def gen_reject(rng):
     k = gen_pair(rng)
     kind = rng.choice(["bb0", "bb1", "missing_sp", "missing_ep", "name_sat", "name_dif", "name_c0", "dup_ep", "gate_as_sp"])
@@ -218,7 +286,11 @@ def gen_reject(rng):
 
 def generate(rng, tier):
     n = 100 if tier == "quick" else 900
-    return [gen_pair(rng) if rng.random() < 0.85 else gen_reject(rng) for _ in range(n)]
+    out = []
+    for _ in range(n):
+        r = rng.random()
+        out.append(gen_pair(rng) if r < 0.62 else gen_parity_pair(rng) if r < 0.75 else gen_single_pair(rng) if r < 0.87 else gen_reject(rng))
+    return out
 
 
 WIDEN = 1                  # widened search: one more generated batch + a budgeted neighbourhood
@@ -267,6 +339,10 @@ def impl(case):
         try:
             m = cg.tx.miter(a, b, startpoints=S, endpoints=E)
             obs["out"] = lib.dump_circuit(m)
+            try:                                   # the decision the property says follows: is `sat` = 1 possible?
+                obs["solve"] = bool(cg.sat.solve(m, {"sat": True}))
+            except Exception as e2:  # noqa: BLE001
+                obs["solve_exc"] = type(e2).__name__
         except Exception as e:  # noqa: BLE001
             obs["exc"] = type(e).__name__
         obs["S_after"], obs["E_after"] = _snap(S), _snap(E)
@@ -290,7 +366,8 @@ def to_coq(case, obs):
     for o in obs["calls"]:
         c1 = "None" if o["c1"] is None else "(Some %s)" % ccirc(o["c1"])
         r = "(Ok %s)" % ccirc(o["out"]) if "out" in o else "(Raise %s)" % (o["exc"] if o["exc"] in EXN else "OtherError")
-        terms.append("Call %s %s %s %s %s %s %s" % (ccirc(o["c0"]), c1, _copt(o["S"]), _copt(o["E"]), r, _copt(o["S_after"]), _copt(o["E_after"])))
+        sv = "(Some T)" if o.get("solve") is True else "(Some F)" if o.get("solve") is False else "None"
+        terms.append("Call %s %s %s %s %s %s %s %s" % (ccirc(o["c0"]), c1, _copt(o["S"]), _copt(o["E"]), r, _copt(o["S_after"]), _copt(o["E_after"]), sv))
     return "CMiter [" + ";".join(terms) + "]"
 
 
@@ -303,7 +380,8 @@ def classify(case, obs):
     if not obs.get("calls"):
         return ["skip"]
     o = obs["calls"][0]
-    out = ["rel:" + case["rel"].split("+")[0].replace("no-endpoints:", "").replace("asym-outputs:", ""), "result:" + ("ok" if "out" in o else o.get("exc", "?")),
+    rel0 = case["rel"].split("+")[0].replace("no-endpoints:", "").replace("asym-outputs:", "")
+    out = ["rel:" + (rel0 if not rel0.startswith("single:") else "single-operand-gate"), "result:" + ("ok" if "out" in o else o.get("exc", "?")),
            "second-call:" + case.get("second", "same") + ":" + ("ok" if "out" in obs["calls"][-1] else obs["calls"][-1].get("exc", "?"))]
     if "no-endpoints:" in case["rel"]:
         out.append("no-endpoints")
@@ -313,6 +391,10 @@ def classify(case, obs):
         x = case[k]
         out.append(f"{k}:" + ("default" if x is None else "empty" if not x["v"] else "single" if len(x["v"]) == 1 else "subset") +
                    ("" if x is None else ":" + x["as"]))
+    if "solve" in o:
+        out.append("solve:" + ("sat=1 possible" if o["solve"] else "False"))
+    if "solve_exc" in o:
+        out.append("solve:exception:" + o["solve_exc"])
     if "out" in o:
         sat = [n for n in o["out"]["nodes"] if n[0] == "sat"]
         if sat:
